@@ -134,11 +134,18 @@ struct LcSim : Harness {
     if (!strcmp(name, "ext")) return (void *) ext_c;
     if (!strcmp(name, "extn")) return (void *) extn_c;
     auto it = s->resolver_k.find(name); if (it == s->resolver_k.end()) return nullptr;
+    if (it->second < 0) {  // the resolver itself creates and loads a module that defines the name, and answers with the function's address
+      size_t mi = (size_t) (-it->second - 1); if (mi >= s->mods.size()) return nullptr;
+      s->C->count("resolver_loaded_a_module");
+      if (!s->mods[mi].created) { MIR_module_t before = DLIST_TAIL(MIR_module_t, *MIR_get_module_list(s->ctx)); std::string t = s->module_text(mi); MIR_scan_string(s->ctx, t.c_str()); MIR_module_t m = DLIST_TAIL(MIR_module_t, *MIR_get_module_list(s->ctx)); if (m == before) return nullptr; s->bind_items(mi, m); s->mods[mi].via = "scan"; }
+      if (!s->mods[mi].loaded) { MIR_load_module(s->ctx, s->mods[mi].m); s->mods[mi].loaded = true; }
+      Fn *f = s->find_fn(name, (int) mi); return f && f->item ? f->item->addr : nullptr;
+    }
     return name[0] == 'd' ? (void *) extdata_addr(it->second) : extdef_addr(it->second);
   }
 
   // ------------------------------------------------------------------------------------------ run state
-  struct Mod { bool created = false, loaded = false, linked = false; MIR_module_t m = nullptr; std::string via; int iface = -1; bool ambiguous = false; };
+  struct Mod { bool created = false, loaded = false, linked = false; MIR_module_t m = nullptr; std::string via; int iface = -1; bool ambiguous = false; bool dc_resolver = false; };
   struct Fn { const Json *def = nullptr; int mod = -1; MIR_item_t item = nullptr; void *addr_seen = nullptr; void *gen_addr = nullptr; int generated = 0, interp_runs = 0, addr_calls = 0;  bool lazybb_entered = false; bool has_lt = false; int table_owner = 0 /* 0 none, 1 interp, 2 gen */; bool icode = false; };
   MIR_context_t ctx = nullptr; std::vector<Mod> mods; std::map<std::string, std::vector<Fn>> fns;  // name -> definitions (C13: several)
   std::map<std::string, FuncInfo> sigs; const Json *prog_json = nullptr;
@@ -152,7 +159,7 @@ struct LcSim : Harness {
   // second known deviation: the interpreter re-reads the address of an imported item ("mov r, <import>") from the global
   // table when it first translates the function, i.e. it binds to the latest definition at first interpretation
   std::map<std::pair<int, std::string>, Def> bound_late;
-  bool redef_allowed = false;
+  bool redef_allowed = false; std::set<std::string> ever_exported_fn;
   std::string mode; Fnv th; uint64_t nops_done = 0;
   typedef std::vector<uint8_t> Bytes_t;
   Bytes_t store; size_t store_pos = 0;
@@ -225,7 +232,7 @@ struct LcSim : Harness {
     prog_json = &plan.at("prog"); sigs = prog::signatures(*prog_json);
     if (mode == "C13") for (const char *nm : {"f", "g", "h"}) if (!sigs.count(nm)) { FuncInfo fi; fi.name = nm; fi.na = 1; sigs[nm] = fi; }  // names that only externals define
     mods.assign(prog_json->at("mods").size(), Mod()); fns.clear(); G.clear(); bound.clear(); bound_inlined.clear(); bound_late.clear(); use_impl_bindings = false; pending.clear(); foreign.clear(); ext_log.clear(); reenter_addr.clear(); reenter_name.clear(); resolver_k.clear(); resolver_asked.clear();
-    gen_on = c2m_on = ext_loaded = false; opt_level = 2; redef_allowed = false; ext_depth = 0; mdepth = 0; store.clear();
+    gen_on = c2m_on = ext_loaded = false; opt_level = 2; redef_allowed = false; ever_exported_fn.clear(); ext_depth = 0; mdepth = 0; store.clear();
     for (size_t mi = 0; mi < prog_json->at("mods").size(); mi++) for (auto &f : prog_json->at("mods")[mi].at("funcs").a) { Fn fn; fn.def = &f; fn.mod = (int) mi; prog::walk(f.at("body"), [&](const Json &st) { if (st[0].s == "lt" || st[0].s == "ld") fn.has_lt = true; }); fns[f.gets("name")].push_back(fn); }
     if (auto re = kn.find("reenter")) for (auto &p : re->o) reenter_name[atoll(p.first.c_str())] = p.second.s;
     if (auto rs = kn.find("resolver")) for (auto &p : rs->o) resolver_k[p.first] = (int) p.second.num();
@@ -373,8 +380,11 @@ struct LcSim : Harness {
     for (auto &f : prog_json->at("mods")[mi].at("funcs").a) {
       if (!f.geti("exp", 1)) continue; std::string n = f.gets("name");
       auto it = G.find(n);
-      if (it != G.end() && !it->second.external && it->second.def != &f && !redef_allowed) { expect_error = MIR_repeated_decl_error; expect_error_why = "second exported function " + n + " loaded without redefinition permission"; return; }
-      if (it != G.end() && it->second.external && !redef_allowed) { expect_error = -2; /* don't care: the statement is silent on an export loaded after an external of the same name */ }
+      // a second exported *function* of a name is rejected without permission, also when an external was registered in between;
+      // only "first exported function after an external" is the declared don't-care
+      if (it != G.end() && ever_exported_fn.count(n) && it->second.def != &f && !redef_allowed) { expect_error = MIR_repeated_decl_error; expect_error_why = "second exported function " + n + " loaded without redefinition permission"; return; }
+      if (it != G.end() && it->second.external && !ever_exported_fn.count(n) && !redef_allowed) { expect_error = -2; /* don't care: the statement is silent on a first export loaded after an external of the same name */ }
+      ever_exported_fn.insert(n);
       if (it != G.end()) C->count(it->second.external ? "c13_export_over_external" : "c13_export_over_export");
       Def d; d.def = &f; d.mod = (int) mi; G[n] = d;
     }
@@ -391,8 +401,9 @@ struct LcSim : Harness {
     if ((iface >= 2) && !gen_on) { phase("MIR_gen_init"); MIR_gen_init(ctx); gen_on = true; MIR_gen_set_optimize_level(ctx, (unsigned) opt_level); }
     if (!ext_loaded && !use_resolver && mode != "C13") { MIR_load_external(ctx, "ext", (void *) ext_c); MIR_load_external(ctx, "extn", (void *) extn_c); ext_loaded = true; }
     // model: bind every import of every pending module
-    expect_error = -1; std::vector<std::pair<int, std::string>> newly;
-    for (int mi : pending) for (auto &n : imports_of((size_t) mi)) {
+    expect_error = -1; std::vector<std::pair<int, std::string>> newly; std::vector<int> sim_loaded; bool dontcare = false;
+    for (size_t pi = 0; pi < pending.size() && expect_error < 0; pi++) { int mi = pending[pi]; for (auto &n : imports_of((size_t) mi)) {
+      if (expect_error >= 0) break;
       auto it = G.find(n);
       if (it != G.end()) {
         // A module that stayed queued after a link without interface is linked a second time.  Calls the first step has
@@ -406,10 +417,22 @@ struct LcSim : Harness {
         bound[{mi, n}] = it->second; newly.push_back({mi, n}); continue;
       }
       auto rk = resolver_k.find(n);
-      if (use_resolver && rk != resolver_k.end()) { Def d; d.def = n[0] == 'd' ? extdata_def(rk->second) : extdef_def(rk->second); d.external = true; d.k = rk->second; G[n] = d; bound[{mi, n}] = d; continue; }
+      if (use_resolver && rk != resolver_k.end() && rk->second < 0) {  // the resolver loads module L and answers with L's function: MIR registers that address as an external
+        size_t L = (size_t) (-rk->second - 1); Fn *lf = L < mods.size() ? find_fn(n, (int) L) : nullptr;
+        if (lf) {
+          bool was_loaded = mods[L].loaded || std::find(sim_loaded.begin(), sim_loaded.end(), (int) L) != sim_loaded.end();
+          if (!was_loaded) {
+            // declared don't-care: the module the resolver loads *during* the step redefines a name that an import of this same
+            // step was already bound to (inlined calls follow the table entry as it is at inlining time, the others keep the address)
+            for (auto &lf2 : prog_json->at("mods")[L].at("funcs").a) for (auto &nb : newly) if (nb.second == lf2.gets("name")) { mods[(size_t) nb.first].dc_resolver = true; C->count("dont_care_resolver_redefines_name_bound_in_same_step"); }
+            model_load(L); sim_loaded.push_back((int) L); if (expect_error >= 0) break; if (expect_error == -2) dontcare = true; expect_error = -1; pending.push_back((int) L); }
+          Def d; d.def = lf->def; d.external = true; d.mod = (int) L; G[n] = d; bound[{mi, n}] = d; continue;
+        }
+      }
+      if (use_resolver && rk != resolver_k.end() && rk->second >= 0) { Def d; d.def = n[0] == 'd' ? extdata_def(rk->second) : extdef_def(rk->second); d.external = true; d.k = rk->second; G[n] = d; bound[{mi, n}] = d; continue; }
       if (expect_error < 0) { expect_error = MIR_undeclared_op_ref_error; expect_error_why = "import of undefined " + n + " in module " + std::to_string(mi); }
-    }
-    if (use_resolver && !ext_loaded) { /* ext resolved by the resolver on demand */ }
+    } }
+    if (expect_error < 0 && dontcare) expect_error = -2;
     for (int mi : pending) for (auto &fj : prog_json->at("mods")[(size_t) mi].at("funcs").a) {
       bool bad = false; std::string who;
       prog::walk(fj.at("body"), [&](const Json &st) { if (st[0].s == "call") { Fn *g = callable_fn(st[2].s); if (g && mods[g->mod].iface == 4 && g->lazybb_entered) { bad = true; who = st[2].s; } } });
@@ -531,6 +554,7 @@ struct LcSim : Harness {
     }
     th.u64((uint64_t) got);
     bool late = false; for (auto &bl : bound_late) if (bl.first.first == f->mod) { auto b0 = bound.find(bl.first); if (b0 != bound.end() && b0->second.def != bl.second.def) late = true; }
+    if (got != want && mods[f->mod].dc_resolver) { C->count("dont_care_observation_skipped"); return; }
     if (got != want && (mods[f->mod].ambiguous || late)) {
       // does the value match what the implementation is known to do on re-link (inlined direct calls keep the old definition)?
       prog::Model keep = model; use_impl_bindings = true; model.log.clear(); model.entered.clear(); model.steps = 0; model.overrun = false; model.depth = 0;
@@ -586,8 +610,11 @@ struct LcSim : Harness {
     // resolver knows a per-run subset of the pool
     Json rs = Json::object(); for (auto nm : pool) if (r.chance(1, 3)) rs.set(nm, (int) r.below(8)); for (auto nm : {"d1", "d2"}) if (r.chance(1, 3)) rs.set(nm, (int) r.below(8)); if (rs.size()) kn.set("resolver", rs);
     // history: a loose model (which names are known) biases towards long error-free histories, but errors are legal histories too
-    std::set<std::string> known, known_fn; bool permit = false; std::vector<int> order; for (int i = 0; i < nver; i++) order.push_back(i);
-    for (int i = nver; i > 1; i--) std::swap(order[i - 1], order[r.below(i)]);
+    int Lm = nver >= 3 && r.chance(1, 4) ? nver - 1 : -1;   // a module that only the resolver call-back creates and loads, during a link
+    if (Lm >= 0) for (auto &d : defs[Lm]) rs.set(d, -(Lm + 1));
+    if (rs.size()) kn.set("resolver", rs);
+    std::set<std::string> known, known_fn; bool permit = false; std::vector<int> order; for (int i = 0; i < nver; i++) if (i != Lm) order.push_back(i);
+    for (size_t i = order.size(); i > 1; i--) std::swap(order[i - 1], order[r.below(i)]);
     size_t next = 0; std::vector<int> pend, linked; int risk = (int) r.below(100) < 25 ? 4 : 30;  // 1/risk chance to ignore the bias
     int nsteps = (int) r.range(4, 22);
     for (int st = 0; st < nsteps; st++) {
